@@ -13,7 +13,31 @@
  */
 #include "h4v.h"
 #include "h4v_err.h" /* trusted stubs: HEclear/HEpush/HEreport have no effect on atom state */
+/* allocator seen by atom.c: libc's, except that a refusal is tied to the named ghost g_oom_at
+   (the g_oom_at-th allocation of the call fails; 0 = none) so that the native replay can inject
+   the same failure.  The harnesses themselves use the plain allocator. */
+int g_oom_at;
+int g_nalloc;
+static void *
+h4v_atom_alloc(size_t nmemb, size_t size, int zero)
+{
+    void *p = zero ? calloc(nmemb, size) : malloc(nmemb * size);
+    g_nalloc++;
+#ifdef H4V_CBMC
+    __CPROVER_assume((p == NULL) == (g_nalloc == g_oom_at));
+#else
+    if (g_nalloc == g_oom_at) {
+        free(p);
+        p = NULL;
+    }
+#endif
+    return p;
+}
+#define malloc(n) h4v_atom_alloc(1, (n), 0)
+#define calloc(a, b) h4v_atom_alloc((a), (b), 1)
 #include "atom.c"
+#undef malloc
+#undef calloc
 
 /* ------------------------------------------------------------------ ghost state */
 int           g_grp;    /* modelled group, 0 <= g_grp < MAXGROUP */
@@ -33,6 +57,12 @@ atom_t       g_cid0, g_cid1, g_cid2, g_cid3;
 void        *g_cob0, *g_cob1, *g_cob2, *g_cob3;
 atom_info_t *g_fl;     /* atom_free_list on entry */
 atom_info_t *g_flnext; /* g_fl->next on entry (when g_fl != NULL) */
+atom_info_t *g_p0, *g_p1, *g_p2; /* HAremove_atom: the expected chain afterwards */
+int          g_plen;
+uint32       g_next0;  /* HAregister_atom: nextid on entry */
+uint32       g_loc;    /* HAregister_atom: the bucket the new id hashes to */
+atom_info_t *g_head0;  /* HAregister_atom: head of that bucket on entry (arbitrary chain behind it) */
+uint32       g_count0; /* HAdestroy_group / HAinit_group: count on entry */
 atom_info_t *g_gn;     /* HAregister_atom: an arbitrary node already registered in the group */
 
 /* ------------------------------------------------------------------ specification vocabulary
@@ -71,7 +101,8 @@ atom_info_t *g_gn;     /* HAregister_atom: an arbitrary node already registered 
 #define GROUP_WF(n, a, b, c)                                                                         \
     (g_grp >= 0 && g_grp < (int)MAXGROUP && g_gp != NULL && GP == (g_present ? g_gp : (atom_group_t *)NULL) && (n) >= 0 && (n) <= 3 &&     \
      (!LIVE || (HS_OK(HS) && g_gp->atom_list != NULL && g_b < HS && CHAIN_IS(n, a, b, c) &&            \
-                NODES_WF(n, a, b, c) && g_gp->atoms >= (unsigned)(n) && g_gp->nextid <= IDX_LIMIT)))
+                NODES_WF(n, a, b, c) && g_gp->atoms >= (unsigned)(n) && g_gp->atoms <= g_gp->nextid &&        \
+                g_gp->nextid <= IDX_LIMIT)))
 
 /* uncached lookup as a specification: the node / object registered under id i (the call is
    centred: i's group is g_grp and i hashes to bucket g_b) */
@@ -112,6 +143,7 @@ atom_info_t *g_gn;     /* HAregister_atom: an arbitrary node already registered 
 /* the entry chain */
 #define E_CHAIN g_len, g_n0, g_n1, g_n2
 #define WF_(t) ATOMS_WF(t)
+#define CACHE_WF_(t) CACHE_WF(t)
 #define LOOKUP_NODE_(t, i) LOOKUP_NODE(t, i)
 #define LOOKUP_(t, i) LOOKUP(t, i)
 #define CHAIN_IS_(t) CHAIN_IS(t)
@@ -150,6 +182,12 @@ atom_info_t *g_gn;     /* HAregister_atom: an arbitrary node already registered 
      : (g_len > 2 && g_id2 == (a)) ? 2                                                               \
                                    : -1)
 #define SPEC_OBJ(a) (SPEC_K(a) == 0 ? g_ob0 : SPEC_K(a) == 1 ? g_ob1 : SPEC_K(a) == 2 ? g_ob2 : (void *)NULL)
+/* expected chain after HAremove_atom(a): the entry chain without a's node */
+#define P_CHAIN g_plen, g_p0, g_p1, g_p2
+#define POST_CHAIN_DEF(a)                                                                            \
+    (g_plen == (SPEC_K(a) < 0 ? g_len : g_len - 1) && g_p0 == (SPEC_K(a) == 0 ? g_n1 : g_n0) &&      \
+     g_p1 == ((SPEC_K(a) == 0 || SPEC_K(a) == 1) ? g_n2 : g_n1) && g_p2 == g_n2)
+#define REMOVED_NODE(a) (SPEC_K(a) == 0 ? g_n0 : SPEC_K(a) == 1 ? g_n1 : g_n2)
 #define FREELIST_SAME (atom_free_list == g_fl && (g_fl == NULL || g_fl->next == g_flnext))
 #define B2_SAME (!LIVE || !HAS_B2 || g_gp->atom_list[g_b2] == g_b2head)
 
@@ -173,6 +211,7 @@ static atom_info_t *HAIfind_atom(atom_t atm)
     __CPROVER_ensures(__CPROVER_return_value == NULL ==> CACHE_SAME)
     __CPROVER_ensures(__CPROVER_return_value != NULL ==>
                       (atom_id_cache[3] == atm && atom_obj_cache[3] == LOOKUP_(E_CHAIN, atm)))
+    /* the group part of the invariant cannot change (frame); the cache part is re-established */
     __CPROVER_ensures(WF_(E_CHAIN));
 
 /* --- cached lookup == uncached lookup (cache coherence) -------------------------------------- */
@@ -186,8 +225,9 @@ void *HAatom_object(atom_t atm)
     /* and only ever holds pairs it held before, or the pair just looked up */
     __CPROVER_ensures(PAIR_IS_OLD(g_u) || (LOOKUP_NODE_(E_CHAIN, atm) != NULL && atom_id_cache[g_u] == atm &&
                                            atom_obj_cache[g_u] == LOOKUP_(E_CHAIN, atm)))
-    /* a rejected id (never issued, wrong kind, stale) leaves the cache as it was */
-    __CPROVER_ensures(LOOKUP_NODE_(E_CHAIN, atm) == NULL ==> CACHE_SAME);
+    /* a rejected id (never issued, wrong kind, stale) leaves the cache as it was; only the "empty"
+       id -1 may be promoted like any other cached id (harmless: its object is NULL) */
+    __CPROVER_ensures((LOOKUP_NODE_(E_CHAIN, atm) == NULL && atm != -1) ==> CACHE_SAME);
 
 /* --- release of an id ----------------------------------------------------------------------- */
 void *HAremove_atom(atom_t atm)
@@ -200,25 +240,155 @@ void *HAremove_atom(atom_t atm)
     __CPROVER_ensures(__CPROVER_return_value == SPEC_OBJ(atm))
     /* stale / foreign / never issued id: nothing changed at all */
     __CPROVER_ensures(SPEC_K(atm) < 0 ==>
-                      (CACHE_SAME && FREELIST_SAME && B2_SAME && g_gp->atoms == __CPROVER_old(g_gp->atoms) &&
-                       WF_(E_CHAIN)))
-    /* registered id: exactly its node is unlinked and put on the free list, the others stay in
-       order, the bucket/cache invariant holds for the shorter chain */
-    __CPROVER_ensures(SPEC_K(atm) == 0 ==> (ATOMS_WF(g_len - 1, g_n1, g_n2, g_n2) && atom_free_list == g_n0 && g_n0->next == g_fl))
-    __CPROVER_ensures(SPEC_K(atm) == 1 ==> (ATOMS_WF(g_len - 1, g_n0, g_n2, g_n2) && atom_free_list == g_n1 && g_n1->next == g_fl))
-    __CPROVER_ensures(SPEC_K(atm) == 2 ==> (ATOMS_WF(g_len - 1, g_n0, g_n1, g_n1) && atom_free_list == g_n2 && g_n2->next == g_fl))
-    __CPROVER_ensures(SPEC_K(atm) >= 0 ==> (g_gp->atoms == __CPROVER_old(g_gp->atoms) - 1 && B2_SAME))
-    /* afterwards the id is dead: no cache slot holds it (the chain clauses above say its node is
-       unlinked, ids in a chain are distinct) */
-    __CPROVER_ensures(NOT_CACHED(atm))
-    __CPROVER_ensures(SPEC_K(atm) == 0 ==> LOOKUP_NODE(g_len - 1, g_n1, g_n2, g_n2, atm) == NULL)
-    __CPROVER_ensures(SPEC_K(atm) == 1 ==> LOOKUP_NODE(g_len - 1, g_n0, g_n2, g_n2, atm) == NULL)
-    __CPROVER_ensures(SPEC_K(atm) == 2 ==> LOOKUP_NODE(g_len - 1, g_n0, g_n1, g_n1, atm) == NULL)
-    /* every other cache entry is untouched, the purged one is (-1,NULL) */
-    __CPROVER_ensures(SNAP_ID(g_u) != atm ? (atom_id_cache[g_u] == SNAP_ID(g_u) && atom_obj_cache[g_u] == SNAP_OB(g_u))
-                                          : (atom_id_cache[g_u] == -1 && atom_obj_cache[g_u] == NULL))
+                      (CACHE_SAME && FREELIST_SAME && g_gp->atoms == __CPROVER_old(g_gp->atoms)))
+    /* registered id: exactly its node is unlinked and put on the free list (it keeps its stale id
+       there), the count drops by one */
+    __CPROVER_ensures(SPEC_K(atm) >= 0 ==>
+                      (atom_free_list == REMOVED_NODE(atm) && REMOVED_NODE(atm)->next == g_fl &&
+                       g_gp->atoms == __CPROVER_old(g_gp->atoms) - 1))
+    /* the other nodes stay in the bucket in their order, the other bucket is untouched, and the
+       bucket/cache invariant holds for the resulting chain (g_plen, g_p0, g_p1, g_p2) */
+    __CPROVER_requires(POST_CHAIN_DEF(atm))
+    __CPROVER_ensures(WF_(P_CHAIN) && B2_SAME)
+    /* afterwards the id is dead: not in the bucket, no cache slot holds it */
+    __CPROVER_ensures(LOOKUP_NODE_(P_CHAIN, atm) == NULL)
+    __CPROVER_ensures(atm == -1 || NOT_CACHED(atm))
+    /* the slot that held the id is emptied; any other slot keeps its pair (or is emptied as well:
+       dropping cache entries is harmless, inventing or mixing them is not) */
+    __CPROVER_ensures((SNAP_ID(g_u) != atm && atom_id_cache[g_u] == SNAP_ID(g_u) && atom_obj_cache[g_u] == SNAP_OB(g_u)) ||
+                      (atom_id_cache[g_u] == -1 && atom_obj_cache[g_u] == NULL))
     /* the surviving nodes keep id and object */
     __CPROVER_ensures(NODES_SNAP);
+
+/* --- issue of a new id -------------------------------------------------------------------------
+   General part (no assumption on the chain behind the bucket head: the function never looks past
+   the head pointer).  A-ATOMWRAP: nextid < 2^28 -- the code has no wrap guard, MAKE_ATOM masks the
+   counter, so the 2^28+1st registration in one group would re-issue id 0 of that group. */
+#define REG_LIVE(grp) ((int)(grp) >= 0 && (int)(grp) < (int)MAXGROUP && LIVE)
+#define NEWNODE (g_gp->atom_list[g_loc])
+#define REG_PRE(grp)                                                                                 \
+    (g_grp >= 0 && g_grp < (int)MAXGROUP && g_gp != NULL && GP == (g_present ? g_gp : (atom_group_t *)NULL) && \
+     ((int)(grp) < 0 || (int)(grp) >= (int)MAXGROUP || (int)(grp) == g_grp) && g_gn != NULL &&        \
+     g_u >= 0 && g_u < ATOM_CACHE_SIZE && g_next0 == g_gp->nextid && g_gp->atom_list != NULL &&       \
+     /* released nodes are in no chain */                                                            \
+     (g_fl == NULL || (g_fl != g_gn && (!LIVE || g_fl != g_head0))) &&                                \
+     (!LIVE || (HS_OK(HS) && g_next0 < IDX_LIMIT && g_loc == (g_next0 & (HS - 1)) && g_head0 == NEWNODE && \
+                /* an arbitrary node already registered in the group, and an arbitrary cache slot: \
+                   their ids carry a counter below nextid (part of ATOMS_WF) */                      \
+                SPEC_GRP(g_gn->id) == g_grp && SPEC_IDX(g_gn->id) < g_next0 &&                       \
+                (SPEC_GRP(SNAP_ID(g_u)) != g_grp || SPEC_IDX(SNAP_ID(g_u)) < g_next0) &&             \
+                (g_b2 >= HS || g_gp->atom_list[g_b2] == g_b2head))))
+/* invariant part (bounded: the new id goes into the modelled bucket whose chain has <= 2 nodes) */
+#ifdef H4V_REG_WF
+#define REG_WF_PRE (WF_(E_CHAIN) && g_len <= 2 && (!LIVE || g_loc == g_b) && g_fl != NULL)
+#define REG_WF_POST(ok) ((ok) ? ATOMS_WF(g_len + 1, g_fl, g_n0, g_n1) : WF_(E_CHAIN))
+#else
+#define REG_WF_PRE 1
+#define REG_WF_POST(ok) 1
+#endif
+atom_t HAregister_atom(group_t grp, void *object)
+    __CPROVER_requires(REG_PRE(grp) && FREELIST_SAME && CACHE_SNAP && REG_WF_PRE)
+    __CPROVER_assigns(g_gp->atoms, g_gp->nextid, __CPROVER_object_whole(g_gp->atom_list), atom_free_list, g_nalloc;
+                      g_fl != NULL: __CPROVER_object_whole(g_fl))
+    /* group out of range / never initialised / destroyed: FAIL, nothing changed */
+    __CPROVER_ensures(!REG_LIVE(grp) ==> __CPROVER_return_value == FAIL)
+    __CPROVER_ensures(__CPROVER_return_value == FAIL ==>
+                      (g_gp->nextid == g_next0 && g_gp->atoms == __CPROVER_old(g_gp->atoms) && FREELIST_SAME &&
+                       (!LIVE || (NEWNODE == g_head0 && (g_b2 >= HS || g_gp->atom_list[g_b2] == g_b2head)))))
+    /* otherwise the id is the group and the next counter value ... */
+    __CPROVER_ensures(__CPROVER_return_value == FAIL || __CPROVER_return_value == SPEC_ID(g_grp, g_next0))
+    /* ... which is fresh: it differs from the id of every node registered in the group and from
+       every cached id, and it is not the failure value */
+    __CPROVER_ensures(__CPROVER_return_value == FAIL ||
+                      (__CPROVER_return_value != g_gn->id && __CPROVER_return_value != atom_id_cache[g_u] &&
+                       __CPROVER_return_value != -1 && SPEC_GRP(__CPROVER_return_value) == g_grp &&
+                       SPEC_IDX(__CPROVER_return_value) < g_gp->nextid))
+    /* its node is prepended to bucket nextid & (hash_size-1), carries the NEW id (also when the
+       node comes from the free list with a stale id in it) and the object */
+    __CPROVER_ensures(__CPROVER_return_value == FAIL ||
+                      (NEWNODE != NULL && NEWNODE->id == __CPROVER_return_value && (void *)NEWNODE->obj_ptr == object &&
+                       NEWNODE->next == g_head0 && NEWNODE != g_head0 && NEWNODE != g_gn))
+    __CPROVER_ensures(__CPROVER_return_value == FAIL ||
+                      (g_gp->nextid == g_next0 + 1 && g_gp->atoms == __CPROVER_old(g_gp->atoms) + 1 &&
+                       ((g_b2 >= HS || g_b2 == g_loc) || g_gp->atom_list[g_b2] == g_b2head)))
+    /* node source: the head of the free list if there is one */
+    __CPROVER_ensures(__CPROVER_return_value == FAIL ||
+                      (g_fl != NULL ? (NEWNODE == g_fl && atom_free_list == g_flnext) : atom_free_list == NULL))
+    __CPROVER_ensures(CACHE_SAME)
+    __CPROVER_ensures(REG_WF_POST(__CPROVER_return_value != FAIL));
+
+/* --- end of a group ---------------------------------------------------------------------------- */
+#define D_LIVE0(grp) ((int)(grp) >= 0 && (int)(grp) < (int)MAXGROUP && g_present != 0 && g_count0 > 0)
+int HAdestroy_group(group_t grp)
+    __CPROVER_requires(GHOSTS_OK && WF_(E_CHAIN) && CACHE_SNAP && g_u >= 0 && g_u < ATOM_CACHE_SIZE)
+    __CPROVER_requires(((int)grp < 0 || (int)grp >= (int)MAXGROUP || (int)grp == g_grp) && g_count0 == g_gp->count)
+    __CPROVER_assigns(g_gp->count, g_gp->atom_list, __CPROVER_object_whole(atom_id_cache), __CPROVER_object_whole(atom_obj_cache))
+    __CPROVER_frees(g_gp->atom_list)
+    /* bad / unknown / already destroyed group: FAIL, nothing changed */
+    __CPROVER_ensures(!D_LIVE0(grp) ==> (__CPROVER_return_value == FAIL && g_gp->count == g_count0 && CACHE_SAME &&
+                                         g_gp->atom_list == __CPROVER_old(g_gp->atom_list)))
+    __CPROVER_ensures(D_LIVE0(grp) ==> (__CPROVER_return_value == SUCCEED && g_gp->count == g_count0 - 1))
+    /* other users remain: nothing else changes */
+    __CPROVER_ensures((D_LIVE0(grp) && g_count0 > 1) ==> (CACHE_SAME && g_gp->atom_list == __CPROVER_old(g_gp->atom_list)))
+    /* last user: table released, and no cache slot keeps an id of the group; entries of other groups
+       keep their pair (or are emptied: harmless) */
+    __CPROVER_ensures((D_LIVE0(grp) && g_count0 == 1) ==>
+                      (g_gp->atom_list == NULL &&
+                       ((SPEC_GRP(SNAP_ID(g_u)) != g_grp && atom_id_cache[g_u] == SNAP_ID(g_u) && atom_obj_cache[g_u] == SNAP_OB(g_u)) ||
+                        (atom_id_cache[g_u] == -1 && atom_obj_cache[g_u] == NULL))))
+    /* every id of the group is now rejected (the group is not live) and the cache is coherent */
+    __CPROVER_ensures((D_LIVE0(grp) && g_count0 == 1) ==> !LIVE)
+    __CPROVER_ensures(CACHE_WF_(E_CHAIN));
+
+/* --- start of a group -------------------------------------------------------------------------
+   No frees clause: HAinit_group must never release a record that the group table still refers to. */
+#define I_ARGS_OK(grp, hs) ((int)(grp) >= 0 && (int)(grp) < (int)MAXGROUP && (hs) != 0 && ((hs) & ((hs)-1)) == 0)
+#define I_LIVE0 (g_present != 0 && g_count0 > 0)
+int HAinit_group(group_t grp, unsigned hash_size)
+    __CPROVER_requires(g_n0 != NULL && g_n1 != NULL && g_n2 != NULL && g_gp != NULL && WF_(E_CHAIN) && CACHE_SNAP &&
+                       g_count0 == g_gp->count)
+    __CPROVER_requires((int)grp < 0 || (int)grp >= (int)MAXGROUP || (int)grp == g_grp)
+    /* a destroyed group has released its table (HAdestroy_group) */
+    __CPROVER_requires(g_gp->count > 0 || g_gp->atom_list == NULL)
+    __CPROVER_assigns(atom_group_list[g_grp], g_gp->count, g_gp->hash_size, g_gp->atoms, g_gp->nextid, g_gp->atom_list, g_nalloc)
+    __CPROVER_ensures(!I_ARGS_OK(grp, hash_size) ==> __CPROVER_return_value == FAIL)
+    /* failure (bad arguments, no memory): the table and the record it refers to are as before */
+    __CPROVER_ensures(__CPROVER_return_value == FAIL ==>
+                      (GP == (g_present ? g_gp : (atom_group_t *)NULL) && g_gp->count == g_count0 &&
+                       g_gp->atom_list == __CPROVER_old(g_gp->atom_list)))
+    __CPROVER_ensures(__CPROVER_return_value == FAIL || __CPROVER_return_value == SUCCEED)
+    /* already initialised: one more user, nothing else changes (hash_size is ignored) */
+    __CPROVER_ensures((__CPROVER_return_value == SUCCEED && I_LIVE0) ==>
+                      (GP == g_gp && g_gp->count == g_count0 + 1 && g_gp->hash_size == __CPROVER_old(g_gp->hash_size) &&
+                       g_gp->atoms == __CPROVER_old(g_gp->atoms) && g_gp->nextid == __CPROVER_old(g_gp->nextid) &&
+                       g_gp->atom_list == __CPROVER_old(g_gp->atom_list)))
+    /* first user (never initialised, or destroyed before): an empty table of the requested size;
+       no id of the group is valid: every bucket is empty and (by CACHE_WF) no cache slot holds one */
+    __CPROVER_ensures((__CPROVER_return_value == SUCCEED && !I_LIVE0) ==>
+                      (GP != NULL && (g_present == 0 || GP == g_gp) && GP->count == 1 && GP->hash_size == hash_size &&
+                       GP->atoms == 0 && GP->atom_list != NULL && (g_b >= hash_size || GP->atom_list[g_b] == NULL)))
+    __CPROVER_ensures(CACHE_SAME);
+
+/* --- search by object (bounded: the whole table is modelled: <= 2 buckets, the modelled chain of
+       <= 3 nodes and at most one node in the other bucket) ---------------------------------------- */
+static atom_info_t h_other_node;
+static int h_cmp(const void *obj, const void *key);
+#define S_TABLE_OK                                                                                   \
+    (!LIVE || (HS <= 2 && (HS == 1 || (g_b2 == 1 - g_b && g_gp->atom_list[g_b2] == g_b2head &&       \
+                                       (g_b2head == NULL || (g_b2head == &h_other_node && h_other_node.next == NULL))))))
+#define S_HAS_CHAIN(key)                                                                             \
+    ((g_len > 0 && (const void *)g_n0->obj_ptr == (key)) || (g_len > 1 && (const void *)g_n1->obj_ptr == (key)) || \
+     (g_len > 2 && (const void *)g_n2->obj_ptr == (key)))
+#define S_HAS(key)                                                                                   \
+    ((g_len > 0 && (const void *)g_n0->obj_ptr == (key)) || (g_len > 1 && (const void *)g_n1->obj_ptr == (key)) || \
+     (g_len > 2 && (const void *)g_n2->obj_ptr == (key)) ||                                          \
+     (HS == 2 && g_b2head != NULL && (const void *)h_other_node.obj_ptr == (key)))
+void *HAsearch_atom(group_t grp, HAsearch_func_t func, const void *key)
+    __CPROVER_requires(GHOSTS_OK && WF_(E_CHAIN) && S_TABLE_OK && func == h_cmp)
+    __CPROVER_requires((int)grp < 0 || (int)grp >= (int)MAXGROUP || (int)grp == g_grp)
+    __CPROVER_assigns()
+    /* the object of a registered node that matches, NULL if none does or the group is not live */
+    __CPROVER_ensures(__CPROVER_return_value == ((REG_LIVE(grp) && S_HAS(key)) ? (void *)key : (void *)NULL));
 
 #ifdef H4V_NATIVE
 #include "h4v_native_wrap.h"
@@ -238,12 +408,16 @@ pick_obj(int k)
 }
 /* stand-ins for "some other group record" and "some other node" (never to be dereferenced) */
 static atom_group_t h_other_group;
-static atom_info_t  h_other_node;
+static int
+h_cmp(const void *obj, const void *key)
+{
+    return obj == key;
+}
 
+#ifndef H4V_HS_CAP
 #ifdef H4V_CEX
 #define H4V_HS_CAP 64u /* counterexample mode / native replay: keep the table small */
 #else
-#ifndef H4V_HS_CAP
 #define H4V_HS_CAP IDX_LIMIT
 #endif
 #endif
@@ -262,6 +436,13 @@ mk_env(void)
     H4V_HAVOC(int, g_grp);
     H4V_ASSUME(g_grp >= 0 && g_grp < (int)MAXGROUP);
     H4V_HAVOC(int, g_u);
+    H4V_HAVOC(int, g_oom_at);
+    g_nalloc = 0;
+#ifdef H4V_OOM
+    H4V_ASSUME(g_oom_at >= 1 && g_oom_at <= 2);
+#else
+    H4V_ASSUME(g_oom_at == 0);
+#endif
     h_other_group.count     = 1;
     h_other_group.hash_size = 1;
     h_other_group.atom_list = NULL;
@@ -389,6 +570,12 @@ h_codec(void)
     H4V_ASSUME(g >= 0 && g < (int)MAXGROUP && i < IDX_LIMIT);
     H4V_ASSUME(g2 >= 0 && g2 < (int)MAXGROUP && i2 < IDX_LIMIT);
     H4V_ASSUME(HS_OK(hs));
+#ifdef H4V_G8
+    /* group 8 (ANIDGROUP): MAKE_ATOM shifts 8 << 28 in a signed 32-bit int (kept apart) */
+    H4V_ASSUME(g == (int)ANIDGROUP || g2 == (int)ANIDGROUP);
+#else
+    H4V_ASSUME(g != (int)ANIDGROUP && g2 != (int)ANIDGROUP);
+#endif
     atom_t a  = MAKE_ATOM(g, i);
     atom_t a2 = MAKE_ATOM(g2, i2);
     H4V_CHECK(ATOM_TO_GROUP(a) == (group_t)g, "codec: group recovered");
@@ -399,7 +586,9 @@ h_codec(void)
     H4V_CHECK(ATOM_TO_LOC(a, hs) == i % hs, "codec: lookup bucket == insert bucket");
     H4V_CHECK((int)ATOM_TO_GROUP(any) == SPEC_GRP(any), "codec: group of an arbitrary id");
     H4V_CHECK(ATOM_TO_GROUP((atom_t)-1) >= MAXGROUP, "codec: -1 has no valid group");
+#ifdef H4V_G8
     H4V_COVER(a < 0, "codec: ids with the sign bit set exist (group 8)");
+#endif
     H4V_CANARY("codec end");
 }
 
@@ -448,6 +637,10 @@ h_HAremove_atom(void)
     mk_env();
     H4V_ND(int32, atm);
     int   k = SPEC_K(atm);
+    g_plen  = k < 0 ? g_len : g_len - 1;
+    g_p0    = k == 0 ? g_n1 : g_n0;
+    g_p1    = (k == 0 || k == 1) ? g_n2 : g_n1;
+    g_p2    = g_n2;
     void *r = HAremove_atom(atm);
     H4V_COVER(k == 0 && g_len == 3, "HAremove_atom first of three");
     H4V_COVER(k == 1 && g_len == 3, "HAremove_atom middle");
@@ -456,7 +649,116 @@ h_HAremove_atom(void)
     H4V_COVER(k < 0 && SPEC_VALIDGRP(atm) && LIVE && g_len == 3, "HAremove_atom stale id");
     H4V_COVER(k < 0 && !SPEC_VALIDGRP(atm), "HAremove_atom bad group");
     /* two-call history: the released id is rejected by the public lookup, and again by remove */
+#ifndef H4V_NO_HISTORY
     void *r2 = HAatom_object(atm);
     H4V_CHECK(r2 == NULL, "released id is rejected by HAatom_object");
+#endif
     H4V_CANARY("HAremove_atom end");
+}
+
+void
+h_HAregister_atom(void)
+{
+    mk_env();
+    H4V_ND(int, grp);
+    H4V_ND(int, obj);
+#ifdef H4V_G8
+    H4V_ASSUME(grp == (int)ANIDGROUP); /* MAKE_ATOM(8, i) shifts into the sign bit: kept apart */
+#else
+    H4V_ASSUME(grp != (int)ANIDGROUP);
+#endif
+#if defined(H4V_FL_EMPTY)
+    H4V_ASSUME(g_fl == NULL); /* node comes from malloc */
+#elif defined(H4V_FL_NONEMPTY)
+    H4V_ASSUME(g_fl != NULL); /* node comes from the free list */
+#endif
+    g_gn = malloc(sizeof(atom_info_t));
+    H4V_ASSUME(g_gn != NULL);
+    H4V_ND(int32, gn_id);
+    g_gn->id      = gn_id;
+    g_gn->obj_ptr = NULL;
+    g_gn->next    = &h_other_node;
+    g_next0       = g_gp->nextid;
+    g_loc         = g_next0 & (g_gp->hash_size - 1);
+    /* head of the target bucket: empty, the modelled chain, or some node with an arbitrary chain
+       behind it (never a pointer to storage that does not exist yet) */
+    H4V_ND(int, head_empty);
+    if (g_loc != g_b)
+        g_gp->atom_list[g_loc] = head_empty ? NULL : &h_other_node;
+    g_head0 = g_gp->atom_list[g_loc];
+    if (g_b2 < g_gp->hash_size)
+        g_b2head = g_gp->atom_list[g_b2];
+    atom_t r      = HAregister_atom((group_t)grp, pick_obj(obj));
+#ifndef H4V_FL_EMPTY
+    H4V_COVER(r != FAIL && g_fl != NULL, "HAregister_atom reuses a released node");
+#endif
+#if !defined(H4V_FL_NONEMPTY) && !defined(H4V_OOM)
+    H4V_COVER(r != FAIL && g_fl == NULL, "HAregister_atom allocates a node");
+#endif
+#ifdef H4V_OOM
+    H4V_COVER(r == FAIL && grp == g_grp && LIVE, "HAregister_atom out of memory");
+#endif
+    H4V_COVER(r != FAIL && g_head0 != NULL, "HAregister_atom prepends to a non-empty bucket");
+    H4V_COVER(r != FAIL && g_head0 == NULL, "HAregister_atom first node of a bucket");
+    H4V_COVER(r == FAIL && grp == g_grp, "HAregister_atom group not live");
+#ifndef H4V_G8
+    H4V_COVER(r == FAIL && grp != g_grp, "HAregister_atom bad group");
+#endif
+    H4V_CANARY("HAregister_atom end");
+}
+
+void
+h_HAdestroy_group(void)
+{
+    mk_env();
+    H4V_ND(int, grp);
+    g_count0 = g_gp->count;
+    int r    = HAdestroy_group((group_t)grp);
+    H4V_COVER(r == SUCCEED && g_count0 == 1 && SPEC_GRP(g_cid1) == g_grp, "HAdestroy_group last user, purges a cached id");
+    H4V_COVER(r == SUCCEED && g_count0 == 1 && g_cid0 != -1 && SPEC_GRP(g_cid0) != g_grp, "HAdestroy_group keeps another group's entry");
+    H4V_COVER(r == SUCCEED && g_count0 > 1, "HAdestroy_group other users remain");
+    H4V_COVER(r == FAIL && grp == g_grp, "HAdestroy_group group not live");
+    H4V_COVER(r == FAIL && grp != g_grp, "HAdestroy_group bad group");
+    H4V_CANARY("HAdestroy_group end");
+}
+
+void
+h_HAinit_group(void)
+{
+    mk_env();
+    H4V_ND(int, grp);
+    H4V_ND(uint32, hash_size);
+#ifdef H4V_CEX
+    H4V_ASSUME(hash_size <= 64u || (hash_size & (hash_size - 1)) != 0);
+#endif
+    g_count0 = g_gp->count;
+    if (g_count0 == 0)
+        g_gp->atom_list = NULL; /* state left by HAdestroy_group */
+    int r = HAinit_group((group_t)grp, hash_size);
+#ifndef H4V_OOM
+    H4V_COVER(r == SUCCEED && g_present && g_count0 > 0, "HAinit_group another user");
+    H4V_COVER(r == SUCCEED && g_present && g_count0 == 0, "HAinit_group re-initialises a destroyed group");
+    H4V_COVER(r == SUCCEED && !g_present, "HAinit_group first initialisation");
+    H4V_COVER(r == FAIL && grp == g_grp, "HAinit_group bad hash size");
+#else
+    H4V_COVER(r == FAIL && grp == g_grp && I_ARGS_OK(grp, hash_size), "HAinit_group out of memory");
+#endif
+    H4V_CANARY("HAinit_group end");
+}
+
+void
+h_HAsearch_atom(void)
+{
+    mk_env();
+    H4V_ND(int, grp);
+    H4V_ND(int, key);
+    H4V_ND(int, other_obj);
+    h_other_node.obj_ptr = pick_obj(other_obj);
+    h_other_node.next    = NULL;
+    void *r              = HAsearch_atom((group_t)grp, h_cmp, pick_obj(key));
+    H4V_COVER(r != NULL && g_len == 3 && r == g_ob2 && r != g_ob0 && r != g_ob1, "HAsearch_atom finds the third node");
+    H4V_COVER(r != NULL && !S_HAS_CHAIN(r), "HAsearch_atom finds the node of the other bucket");
+    H4V_COVER(r == NULL && LIVE && grp == g_grp && g_len == 3, "HAsearch_atom no match");
+    H4V_COVER(r == NULL && grp == g_grp && !LIVE, "HAsearch_atom group not live");
+    H4V_CANARY("HAsearch_atom end");
 }
